@@ -33,8 +33,9 @@ for nb, nt in [(1, 3), (2, 2)]:
 CAD = dict(flags=["--sat-solver", "cadical"], backend="cbmc SAT (cadical)")
 for case, txt, tier in [(1, "valid arguments, writable file, no fault: the conversion has to succeed", "quick"),
                         (2, "file opened read-only", "quick"),
+                        (3, "block_length <= 0 or number_blocks <= 0 (argument gate: FAIL, nothing created)", "quick"),
                         (0, "all arguments, read-only or writable file, faults injected at every H-layer call", "quick")]:
-    ob(f"HLconvert_c{case}", ["C13", "C14"] if case == 2 else ["C13"], entry="h_HLconvert", enforce="HLconvert", mode="bounded",
+    ob(f"HLconvert_c{case}", ["C13", "C14"] if case == 2 else ["C13", "C01", "C02"] if case == 3 else ["C13"], entry="h_HLconvert", enforce="HLconvert", mode="bounded",
        bound=f"number_blocks == 2 (HLInewlink fill loop unwound); block_length, element offset/length, position symbolic; {txt}",
        unwind=5, cex_unwind=5, tier=tier, defines=["H4V_NBC=2", f"H4V_CASE={case}"], **CAD, **HB)
 
@@ -48,8 +49,10 @@ for case, txt in [(1, "arrays hold every data block (or no arrays); no fault"), 
 # HLInewlink: table in memory == table on disk
 ob("HLInewlink", ["C01", "C02"], entry="h_HLInewlink", enforce="HLInewlink", mode="bounded", bound="1 <= number_blocks <= 4",
    unwind=6, cex_unwind=6, defines=["H4V_NB=4"], **CAD, **HB)
-ob("HLInewlink_nb0", ["C01", "C02"], entry="h_HLInewlink_nb0", enforce=None, mode="bounded",
-   bound="number_blocks == 0 (accepted by HLcreate/HLconvert); memory safety only", unwind=6, cex_unwind=6, **HB)
+# argument / write-access gate of HLcreate (HLInewlink(.., 0) overran its table while number_blocks == 0 was accepted)
+ob("HLcreate_gate", ["C01", "C02", "C14"], entry="h_HLcreate_gate", enforce="HLcreate", mode="bounded",
+   bound="gate region only: bad file id, block_length <= 0, number_blocks <= 0, special tag or read-only file; all values symbolic; "
+         "HLcreate beyond its gates is not under contract", cex_unwind=4, **HB)
 
 # ------------------------------------------------------------------------------------------ hextelt.c (external elements)
 HX = dict(unit="hextelt_u.c", file="hdf/src/hextelt.c", objbits=10, cex_unwind=4, replace=["HXIbuildfilename"],
